@@ -26,7 +26,7 @@ type Instance struct {
 	Starts  int
 }
 
-func (in *Instance) URL() string      { return "nats://" + in.Name + ".local:4222" }
+func (in *Instance) URL() string       { return "nats://" + in.Name + ".local:4222" }
 func (in *Instance) PublicURL() string { return "nats://" + in.Name + ":4222" }
 
 // NewInstance creates the bus server and starts the store.
